@@ -287,6 +287,17 @@ def _check(case, d):
             if created:
                 raise Violation(f"C18:{cmd}:failed-but-output-written", ctx)
             return {"nontrivial": True, "labels": labs + ["api-raises"]}
+        # the same text assembled from the CodeGenerator methods with the scheme options passed
+        # explicitly: an option that never reaches the generator (in the CLI *and* in get_code,
+        # which share cli.utils.add_schemes) shows as a difference here
+        try:
+            with warnings.catch_warnings():
+                warnings.simplefilter("ignore")
+                low = lowlevel_text(ode, target, eff, fmt, cmd)
+        except Exception as ex:
+            low = None
+        if low is not None and low != text:
+            raise Violation(f"C18:{cmd}:option-does-not-reach-the-generator", dict(ctx, effective=eff, diff=_first_diff(low, text)))
         expected = text.encode()
         from pathlib import Path
 
@@ -303,6 +314,41 @@ def _check(case, d):
         raise Violation(f"C18:{cmd}:output-differs-from-api", dict(ctx, effective=eff, diff=_first_diff(expected.decode(errors="replace"), got.decode(errors="replace"))))
     nondefault = sum(1 for k in ("schemes", "stiff", "delta", "remove_unused", "format", "backend", "to", "outname") if case.get(k)) + (2 if case.get("config") else 0)
     return {"nontrivial": nondefault >= 2, "labels": labs}
+
+
+def lowlevel_text(ode, target, eff, fmt, cmd):
+    """assemble the module like get_code does, but hand each scheme its options explicitly"""
+    from gotranx.schemes import get_scheme
+
+    if target == "ode2py":
+        from gotranx.codegen.python import PythonCodeGenerator, Format, get_formatter
+        from gotranx.codegen.jax import JaxCodeGenerator
+
+        backend = eff["backend"] if cmd == "ode2py" else "numpy"
+        cg = (PythonCodeGenerator if backend == "numpy" else JaxCodeGenerator)(ode, format=Format.none, remove_unused=eff["remove_unused"])
+        comp = [cg.imports(), cg.parameter_index(), cg.state_index(), cg.monitor_index(), cg.missing_index(), cg.initial_parameter_values(), cg.initial_state_values(), cg.rhs(), cg.monitor_values(), ""]
+    else:
+        from gotranx.codegen.c import CCodeGenerator, Format, get_formatter
+
+        cg = CCodeGenerator(ode, format=Format.none, remove_unused=eff["remove_unused"])
+        comp = [
+            cg.imports(),
+            f"int NUM_STATES = {len(ode.states)};",
+            f"int NUM_PARAMS = {len(ode.parameters)};",
+            f"int NUM_MONITORED = {len(ode.state_derivatives) + len(ode.intermediates)};",
+            cg.parameter_index(), cg.state_index(), cg.monitor_index(), cg.missing_index(), cg.initial_parameter_values(), cg.initial_state_values(), cg.rhs(), cg.monitor_values(), "",
+        ]
+    for sname in eff["schemes"] or []:
+        kw = {}
+        if "rush_larsen" in sname:
+            kw["delta"] = eff["delta"]
+        if sname == "hybrid_rush_larsen":
+            kw["stiff_states"] = eff["stiff"]
+        comp.append(cg.scheme(get_scheme(sname), **kw))
+    code = "\n".join(comp)
+    if fmt != Format.none:
+        code = get_formatter(format=fmt)(code)
+    return code
 
 
 def _first_diff(a, b):
